@@ -252,7 +252,9 @@ func pluginSchema(s *Script, src string) *schema.CallableSchema {
 
 // ---- deployer --------------------------------------------------------------------------------------------------------
 
-// SDConfig is the configuration of the scripted deployer (nothing to configure).
+// SDConfig is the configuration a step's own `deploy:` section gives the scripted deployer.  The note is recorded with the
+// deployment in the plugin-side log ("note:<text>"); a note that starts with "refuse" makes the deployment fail, so that a
+// deploy-time expression has an observable effect on the run.
 type SDConfig struct {
 	Note string `json:"note"`
 }
@@ -267,11 +269,18 @@ type sdFactory struct{}
 func (sdFactory) Name() string                                 { return "scripted" }
 func (sdFactory) DeploymentType() deployer.DeploymentType      { return "builtin" }
 func (sdFactory) ConfigurationSchema() *schema.TypedScopeSchema[*SDConfig] { return sdSchema }
-func (sdFactory) Create(_ *SDConfig, _ log.Logger) (deployer.Connector, error) {
-	return &sdConnector{}, nil
+func (sdFactory) Create(cfg *SDConfig, _ log.Logger) (deployer.Connector, error) {
+	c := &sdConnector{}
+	if cfg != nil {
+		c.note, c.own = cfg.Note, true
+	}
+	return c, nil
 }
 
-type sdConnector struct{}
+type sdConnector struct {
+	note string
+	own  bool // created from a step's own deploy section (the engine-wide one is created from the local deployer config)
+}
 
 type sdPlugin struct {
 	failWriteFrom int32 // > 0: the n-th and later writes fail
@@ -330,6 +339,10 @@ func (c *sdConnector) Deploy(ctx context.Context, image string) (deployer.Plugin
 		s.add("deploy-fail", image, "", "scripted", nil)
 		return nil, fmt.Errorf("scripted deployment failure of %s", image)
 	}
+	if strings.HasPrefix(c.note, "refuse") && !probing {
+		s.add("deploy-fail", image, "", "note:"+c.note, nil)
+		return nil, fmt.Errorf("deployment of %s refused by its configuration (%s)", image, c.note)
+	}
 	if strings.HasPrefix(image, "probefail") && probing {
 		return nil, fmt.Errorf("scripted probe failure of %s", image)
 	}
@@ -347,7 +360,11 @@ func (c *sdConnector) Deploy(ctx context.Context, image string) (deployer.Plugin
 	if probing {
 		s.add("probe", image, "", "", nil)
 	} else {
-		s.add("deploy", image, "", "", nil)
+		if c.note != "" {
+			s.add("deploy", image, "", "note:"+c.note, nil)
+		} else {
+			s.add("deploy", image, "", "", nil)
+		}
 	}
 	pl := &sdPlugin{reader: stdoutReader, writer: stdinWriter, cancel: cancel, wg: wg, src: image, script: s}
 	if probing && b.ProbeCloseFail {
